@@ -40,10 +40,8 @@ var notApplicable = map[string]string{
 }
 
 // notBuilt lists properties to which the technique applies but for which no
-// check is registered yet.
-var notBuilt = map[string]string{
-	"C13": "not built: world W2 with recording component stubs was not built; see DESIGN.md",
-}
+// check is registered yet (none at present).
+var notBuilt = map[string]string{}
 
 func cmdManifest() {
 	ids := make([]string, 0, len(props))
@@ -56,6 +54,9 @@ func cmdManifest() {
 	for _, id := range ids {
 		p := props[id]
 		engines[p.World] = append(engines[p.World], id)
+		for _, w := range p.Also {
+			engines[w] = append(engines[w], id)
+		}
 		checks = append(checks, map[string]any{
 			"property_id":         id,
 			"quick_cmd":           "bin/verif check " + id + " --tier quick",
